@@ -196,6 +196,9 @@ func TestType1(t *testing.T) {
 		if gen.Uniform(t, 4, "shortBlind") == 0 {
 			// the same kind of value in a shorter big-endian encoding (what big.Int.Bytes() gives for a small scalar)
 			a[0] = append([]byte{1}, gen.Bytes(t, 0, 46, "shortBlindBytes")...)
+			if new(big.Int).SetBytes(a[0]).Cmp(new(big.Int).SetBytes(b[0])) == 0 {
+				a[0] = append(a[0][:len(a[0]):len(a[0])], 7) // (the two blinds must differ as NUMBERS: a short encoding and a zero-padded one of the same value are the same blind)
+			}
 			s.Class("blind-shorter-than-48-bytes")
 		}
 		run := func(blinds [][]byte) ([]byte, []byte, error) {
